@@ -388,8 +388,27 @@ func (e *Exec) newObject(st *State, name string, t types.Type, init Val) *Term {
 			init = zeroVal(t)
 		}
 		e.store(st, r, t, init)
+		e.freshLocks(st, r, t)
 	}
 	return r
+}
+
+// freshLocks: the mutexes inside a newly allocated object are not held
+func (e *Exec) freshLocks(st *State, r *Term, t types.Type) {
+	s, ok := under(t).(*types.Struct)
+	if !ok {
+		return
+	}
+	for i := 0; i < s.NumFields(); i++ {
+		ft := s.Field(i).Type()
+		if n, ok := ft.(*types.Named); ok && n.Obj().Pkg() != nil && n.Obj().Pkg().Path() == "sync" && (n.Obj().Name() == "Mutex" || n.Obj().Name() == "RWMutex") {
+			m := faTerm(t, i, r)
+			e.setGhost(st, "held", SBool, m, TFalse)
+			e.setGhost(st, "rheld", SBool, m, TFalse)
+		} else if _, isS := under(ft).(*types.Struct); isS {
+			e.freshLocks(st, faTerm(t, i, r), ft)
+		}
+	}
 }
 
 // element address of slice s at index i (no bounds check here)
